@@ -21,8 +21,8 @@ from multiprocessing import Pool
 
 from .. import tlc, upj, timeobs
 from ..common import MachineryError, ImplTimeout, call_limited
-from ..gen import TGen, Gen, random_tt_plan, ground_actions, const_num
-from ..upj import NV
+from ..gen import TGen, Gen, random_tt_plan, ground_actions, const_num, T, C, num
+from ..upj import NV, BV, E, TRUE_E
 
 CFG = "SPECIFICATION Spec\nCONSTANT MaxEv = %d\nINVARIANT Judge\n"
 WORKERS = 8
@@ -90,6 +90,103 @@ def features(P, steps):
     if P["invariants"]:
         fs.add("invariant")
     return sorted(fs)
+
+
+# ----------------------------------------------------------------------------------------
+# dependency probes: one tiny problem per channel through which the temporal semantics reads the
+# state (a writer W, a reader X); candidate plans and their validity are decided as for every problem
+# ----------------------------------------------------------------------------------------
+def _fl(name, typ, default):
+    return {"name": name, "type": typ, "sig": [], "default": default}
+
+
+def _fx(name):
+    return E("fluent", [], name=name)
+
+
+def _eff(kind, name, v):
+    return {"kind": kind, "f": {"name": name, "args": []}, "v": v, "c": TRUE_E, "forall": []}
+
+
+def _dur(name, lo, hi, effects, conds=()):
+    return {"name": name, "kind": "dur", "params": [], "pre": [], "effects": list(effects), "conds": list(conds),
+            "dur": {"lo": lo, "hi": hi, "lopen": False, "ropen": False}, "sim": False}
+
+
+def _iv(lo, hi):
+    return {"lo": lo, "hi": hi, "lopen": False, "ropen": False}
+
+
+def probes(rng, variants):
+    INT = {"k": "int", "lo": upj.NONE, "hi": upj.NONE}
+    BOOL = {"k": "bool"}
+    out = []
+
+    def base(name, fluents, actions, goals=(), invariants=(), timed_effects=(), timed_goals=()):
+        return {"name": name, "types": [{"name": "t0", "parent": ""}], "objects": [{"name": "o0", "type": "t0"}],
+                "fluents": list(fluents), "init": [], "ifuns": [], "actions": list(actions), "goals": list(goals),
+                "invariants": list(invariants), "traj": [], "timed_goals": list(timed_goals), "timed_effects": list(timed_effects),
+                "metric": {"kind": "none", "costs": [], "default": E("none"), "expr": E("none"), "goals": []}, "nmetrics": 0}
+
+    for _ in range(variants):
+        tw = rng.choice([T("start"), T("end"), T("end"), T("start", Fraction(1, 2))])  # when the writer writes
+        tx = rng.choice([T("start"), T("end"), T("end")])  # when the reader's own effect happens
+        dw = num(rng.choice([1, 1, Fraction(3, 2)]))
+        done = _eff("assign", "done", C(BV(True)))
+        nf, mf, pf, qf, df = _fl("n", INT, NV(0)), _fl("m", INT, NV(0)), _fl("p", BOOL, BV(False)), _fl("q", BOOL, BV(False)), _fl("done", BOOL, BV(False))
+        pt = _fl("p", BOOL, BV(True))
+        # duration bounds read the state at the start of the action
+        out.append(base("dur-hi", [nf, df], [
+            _dur("w", dw, dw, [{"t": tw, "e": _eff("assign", "n", num(2))}]),
+            _dur("x", num(1), E("plus", [_fx("n"), num(1)]), [{"t": tx, "e": done}])], goals=[_fx("done")]))
+        out.append(base("dur-lo", [nf, df], [
+            _dur("w", dw, dw, [{"t": tw, "e": _eff("inc", "n", num(2))}]),
+            _dur("x", E("plus", [_fx("n"), num(1)]), num(3), [{"t": tx, "e": done}])], goals=[_fx("done")]))
+        # state invariants are read in every state
+        out.append(base("inv-bool", [pt, qf], [
+            _dur("w", dw, dw, [{"t": tw, "e": _eff("assign", "q", C(BV(True)))}]),
+            _dur("x", num(1), num(2), [{"t": tx, "e": _eff("assign", "p", C(BV(False)))}])],
+            goals=[E("not", [_fx("p")])], invariants=[E("or", [_fx("p"), _fx("q")])]))
+        out.append(base("inv-num", [nf, mf], [
+            _dur("w", dw, dw, [{"t": tw, "e": _eff("inc", "m", num(1))}]),
+            _dur("x", num(1), num(2), [{"t": tx, "e": _eff("inc", "n", num(1))}])],
+            goals=[E("le", [num(1), _fx("n")])], invariants=[E("le", [_fx("n"), _fx("m")])]))
+        out.append(base("inv-timed", [pt, qf], [
+            _dur("x", num(Fraction(1, 2)), num(2), [{"t": tx, "e": _eff("assign", "p", C(BV(False)))}])],
+            invariants=[E("or", [_fx("p"), _fx("q")])],
+            timed_effects=[{"t": T("gstart", rng.choice([1, Fraction(3, 2), 2])), "e": _eff("assign", "q", C(BV(True)))}]))
+        # bounded types
+        out.append(base("bounded", [_fl("n", {"k": "int", "lo": NV(0), "hi": NV(2)}, NV(0)), df], [
+            _dur("w", dw, dw, [{"t": tw, "e": _eff("inc", "n", num(1))}]),
+            _dur("x", num(1), num(2), [{"t": tx, "e": _eff("dec", "n", num(1))}])]))
+        # conditions, conditional effects, effect values, goals (the channels deordering knows about)
+        out.append(base("cond", [pf, df], [
+            _dur("w", dw, dw, [{"t": tw, "e": _eff("assign", "p", C(BV(True)))}]),
+            _dur("v", num(1), num(1), [{"t": T("end"), "e": _eff("assign", "p", C(BV(False)))}]),
+            _dur("x", num(1), num(2), [{"t": tx, "e": done}],
+                 [{"iv": rng.choice([_iv(T("start"), T("start")), _iv(T("start"), T("end")), _iv(T("end"), T("end"))]), "c": _fx("p")}])],
+            goals=[_fx("done")]))
+        ce = dict(done)
+        ce["c"] = _fx("p")
+        out.append(base("cond-effect", [pf, df], [
+            _dur("w", dw, dw, [{"t": tw, "e": _eff("assign", "p", C(BV(True)))}]),
+            _dur("x", num(1), num(2), [{"t": tx, "e": ce}])], goals=[_fx("done")]))
+        out.append(base("value", [nf, mf], [
+            _dur("w", dw, dw, [{"t": tw, "e": _eff("assign", "n", num(2))}]),
+            _dur("x", num(1), num(2), [{"t": tx, "e": _eff("assign", "m", _fx("n"))}])], goals=[E("eq", [_fx("m"), num(2)])]))
+        out.append(base("inst-reader", [pf, df], [
+            _dur("w", dw, dw, [{"t": tw, "e": _eff("assign", "p", C(BV(True)))}]),
+            {"name": "x", "kind": "inst", "params": [], "pre": [_fx("p")], "effects": [done], "conds": [], "dur": upj.NONE, "sim": False}],
+            goals=[_fx("done")]))
+        out.append(base("timed-goal", [pf, df], [
+            _dur("w", dw, dw, [{"t": tw, "e": _eff("assign", "p", C(BV(True)))}]),
+            _dur("x", num(1), num(2), [{"t": tx, "e": _eff("assign", "p", C(BV(False)))}])],
+            timed_goals=[{"iv": _iv(T("gstart", 2), T("gstart", rng.choice([2, 3]))), "g": _fx("p")}]))
+        out.append(base("timed-effect", [pt, df], [
+            _dur("w", dw, dw, [{"t": tw, "e": _eff("assign", "p", C(BV(True)))}]),
+            _dur("x", num(1), num(2), [{"t": tx, "e": done}], [{"iv": _iv(T("start"), T("start")), "c": _fx("p")}])],
+            goals=[_fx("done")], timed_effects=[{"t": T("gstart", rng.choice([1, 2])), "e": _eff("assign", "p", C(BV(False)))}]))
+    return out
 
 
 # ----------------------------------------------------------------------------------------
@@ -230,9 +327,9 @@ def judge(ctx, batch, mode, maxev, label):
     return res, n
 
 
-def corpus(ctx, n_t, n_i):
+def corpus(ctx, n_t, n_i, nprobe):
     rng = ctx.rng
-    out = []
+    out = probes(rng, nprobe)
     tg = [TGen(rng), TGen(rng, fixed_durations=True), TGen(rng, invariants=False, timed=True)]
     for i in range(n_t):
         out.append(loosen(rng, tg[i % 3 if i % 4 else 0].problem()))
@@ -243,7 +340,7 @@ def corpus(ctx, n_t, n_i):
 
 
 def signature(clause, fresh, feats):
-    if fresh:
+    if fresh and clause.startswith("conv-raises-"):
         return "env-mixup:tt-to-stn"
     keep = []
     if clause == "back-INVALID-steps-duration" and "state-dependent-duration" in feats:
@@ -253,8 +350,8 @@ def signature(clause, fresh, feats):
 
 def bounds(quick):
     """(max plan length, temporal problems, instantaneous problems, candidates per problem, plans kept per problem,
-    fresh-Environment conversions)"""
-    return (3, 150, 40, 30, 3, 6) if quick else (4, 1500, 400, 40, 4, 30)
+    fresh-Environment conversions, variants of each dependency probe)"""
+    return (3, 150, 40, 30, 3, 6, 1) if quick else (4, 1500, 400, 40, 4, 30, 6)
 
 
 def run(ctx):
@@ -263,9 +360,9 @@ def run(ctx):
     q = ctx.quick
     t0 = time.time()
     timing = ctx.cov.setdefault("timing_s", {})
-    maxlen, n_t, n_i, ncand, keep, nfresh = bounds(q)
+    maxlen, n_t, n_i, ncand, keep, nfresh, nprobe = bounds(q)
     maxev = 2 + 2 * maxlen
-    probs = corpus(ctx, n_t, n_i)
+    probs = corpus(ctx, n_t, n_i, nprobe)
     jobs = [(i + 1, P, ncand, keep, maxlen, ctx.seed * 7919 + i) for i, P in enumerate(probs)]
     with Pool(WORKERS, maxtasksperchild=40) as pool:
         recs = pool.map(cand_worker, jobs, chunksize=2)
